@@ -100,6 +100,19 @@ def _ends(stmts):
     return False
 
 
+def _returns_at_loop_level(stmts):
+    """every return inside stmts is reached through if / else nesting only (not inside a nested loop, try, with or def)"""
+    for st in stmts:
+        if isinstance(st, ast.Return):
+            continue
+        if isinstance(st, ast.If):
+            if not _returns_at_loop_level(st.body) or not _returns_at_loop_level(st.orelse):
+                return False
+        elif _has_return(st):
+            return False
+    return True
+
+
 class _NoTail(Exception):
     pass
 
@@ -145,7 +158,15 @@ def to_tail(stmts, budget=None):
             ast.copy_location(new, st)
             out.append(new)
             return out
-        raise _NoTail  # return inside a loop / with / match
+        if isinstance(st, (ast.While, ast.For)) and not st.orelse and not _loop_level_jumps_kind(st.body, (ast.Break,)) and _returns_at_loop_level(st.body):
+            # a loop that returns from inside: the returns leave the loop, what follows the loop runs only when it ends normally -
+            # which is the loop's `else` clause once the returns have become `<result> ; break`
+            new = type(st)(**{f_: getattr(st, f_) for f_ in st._fields if f_ not in ("orelse",)}, orelse=to_tail(_clone(rest), budget))
+            ast.copy_location(new, st)
+            new._ret_loop = True
+            out.append(new)
+            return out
+        raise _NoTail  # return inside a nested loop / with / match
     r = ast.Return(value=ast.Constant(value=None))
     out.append(r)
     return out
@@ -866,16 +887,35 @@ def _rename_result_temps(stmts):
             # by assigning y: t can live in y's slot throughout (y's old value is dead once t has been initialised from it)
             y_loads = [n for st, _h in flat if st is not first for n in _own_exprs(st) if isinstance(n, ast.Name) and n.id == y and isinstance(n.ctx, ast.Load)]
 
+            def assigns_y(a_):
+                return isinstance(a_, ast.Assign) and any(isinstance(x, ast.Name) and x.id == y and isinstance(x.ctx, ast.Store) for t_ in a_.targets for x in ast.walk(t_))
+
+            def breaks_assign(sts):
+                """every `break` of this loop level directly follows an assignment to y"""
+                for k_, s_ in enumerate(sts):
+                    if isinstance(s_, ast.Break):
+                        if k_ == 0 or not assigns_y(sts[k_ - 1]):
+                            return False
+                    elif isinstance(s_, ast.If):
+                        if not breaks_assign(s_.body) or not breaks_assign(s_.orelse):
+                            return False
+                    elif isinstance(s_, (ast.Try, ast.With, ast.For, ast.While)):
+                        return False
+                return True
+
             def ends_assigning(sts):
                 if not sts:
                     return False
                 last = sts[-1]
-                if isinstance(last, ast.Assign):
-                    return any(isinstance(x, ast.Name) and x.id == y and isinstance(x.ctx, ast.Store) for t_ in last.targets for x in ast.walk(t_))
+                if assigns_y(last):
+                    return True
                 if isinstance(last, ast.If):
                     return bool(last.orelse) and ends_assigning(last.body) and ends_assigning(last.orelse)
+                if isinstance(last, (ast.While, ast.For)) and getattr(last, "_ret_loop", False):
+                    return ends_assigning(last.orelse) and breaks_assign(last.body)
                 return isinstance(last, ast.Raise)
-            if not y_loads and stmts and stmts[0] is first and ends_assigning(stmts) and not any(isinstance(st, (ast.Try, ast.With, ast.For, ast.While)) for st, _h in flat):
+            if not y_loads and stmts and stmts[0] is first and ends_assigning(stmts) and not any(
+                    isinstance(st, (ast.Try, ast.With)) or (isinstance(st, (ast.For, ast.While)) and not getattr(st, "_ret_loop", False)) for st, _h in flat):
                 class RB(ast.NodeTransformer):
                     def visit_Name(self, n):
                         if n.id == t:
@@ -974,7 +1014,7 @@ def _split_tuple_assign(stmts):
                 continue
         for field in ("body", "orelse"):
             sub = getattr(st, field, None)
-            if isinstance(st, ast.If) and isinstance(sub, list) and sub:
+            if isinstance(st, (ast.If, ast.While, ast.For)) and isinstance(sub, list) and sub:
                 setattr(st, field, _split_tuple_assign(sub))
         out.append(st)
     return out
@@ -1008,20 +1048,26 @@ def _replace_node(st, old, new):
     return R().visit(st)
 
 
-def _map_returns(stmts, mk):
+def _map_returns(stmts, mk, brk=False):
     out = []
     for st in stmts:
         if isinstance(st, ast.Return):
             out.append(mk(st.value if st.value is not None else ast.Constant(value=None)))
+            if brk:
+                out.append(ast.Break())
         elif isinstance(st, ast.If):
-            st.body = _map_returns(st.body, mk)
-            st.orelse = _map_returns(st.orelse, mk)
+            st.body = _map_returns(st.body, mk, brk)
+            st.orelse = _map_returns(st.orelse, mk, brk)
             out.append(st)
         elif isinstance(st, ast.Try):
-            st.body = _map_returns(st.body, mk)
-            st.orelse = _map_returns(st.orelse, mk)
+            st.body = _map_returns(st.body, mk, brk)
+            st.orelse = _map_returns(st.orelse, mk, brk)
             for h in st.handlers:
-                h.body = _map_returns(h.body, mk)
+                h.body = _map_returns(h.body, mk, brk)
+            out.append(st)
+        elif isinstance(st, (ast.While, ast.For)) and getattr(st, "_ret_loop", False):
+            st.body = _map_returns(st.body, mk, True)
+            st.orelse = _map_returns(st.orelse, mk, brk)
             out.append(st)
         else:
             out.append(st)
@@ -3424,6 +3470,11 @@ def normalise_jump_thread(tree):
                 leaves(last.orelse, out)
             else:
                 out.append((last, last.body))  # normal completion of the body: a new else clause
+        elif isinstance(last, (ast.While, ast.For)) and last.orelse and _breaks_are_leaf_ends(last.body):
+            # the loop is left either through one of its `break`s or through its else clause
+            for bl in _break_leaves(last.body):
+                out.append((("before-break", bl), bl[:-1]))
+            leaves(last.orelse, out)
         else:
             out.append((sts, look if look is not None else sts))
 
@@ -3471,6 +3522,21 @@ def normalise_jump_thread(tree):
             return None
         return (not truth) if neg else truth
 
+    def _break_leaves(sts):
+        out_ = []
+        if sts and isinstance(sts[-1], ast.Break):
+            out_.append(sts)
+        for s_ in sts:
+            if isinstance(s_, ast.If):
+                out_ += _break_leaves(s_.body) + _break_leaves(s_.orelse)
+        return out_
+
+    def _breaks_are_leaf_ends(sts):
+        """every break of this loop level is the last statement of an if-branch (or of the body), reached through ifs only"""
+        n_br = sum(1 for s_ in sts for x in ([s_] if not isinstance(s_, (ast.For, ast.While, ast.FunctionDef)) else []) for y in ast.walk(x) if isinstance(y, ast.Break)
+                   and not any(isinstance(z, (ast.For, ast.While)) and any(w is y for w in ast.walk(z)) for z in ast.walk(x) if z is not x or isinstance(x, (ast.For, ast.While))))
+        return n_br == len(_break_leaves(sts)) and n_br >= 1 and not any(isinstance(x, (ast.Try, ast.With)) and any(isinstance(y, ast.Break) for y in ast.walk(x)) for s_ in sts for x in ast.walk(s_))
+
     def run(sts):
         i = 0
         while i + 1 < len(sts):
@@ -3486,7 +3552,8 @@ def normalise_jump_thread(tree):
                 i -= 1
                 n[0] += 1
                 continue
-            if not ((isinstance(a, ast.If) and a.orelse) or (isinstance(a, ast.Try) and not a.finalbody and a.handlers)) or not isinstance(b, ast.If):
+            if not ((isinstance(a, ast.If) and a.orelse) or (isinstance(a, ast.Try) and not a.finalbody and a.handlers)
+                    or (isinstance(a, (ast.While, ast.For)) and a.orelse)) or not isinstance(b, ast.If):
                 continue
             tv = test_var(b.test)
             if tv is None or not small(b.body) or not small(b.orelse):
@@ -3498,12 +3565,23 @@ def normalise_jump_thread(tree):
             ds = [decide(k, kind, neg) if k is not None and k[0] != "jump" else None for k in ks]
             if not any(d is not None for d in ds) or len(lv) > 6:
                 continue
+            # code put in front of a loop's `break` runs inside that loop: only when it is decided and has no jump of its own
+            blocked = False
+            for (tgt, _look), k, d in zip(lv, ks, ds):
+                if isinstance(tgt, tuple) and tgt[0] == "before-break":
+                    add_ = (b.body if d else b.orelse) if d is not None else None
+                    if add_ is None or any(isinstance(x, (ast.Break, ast.Continue)) for s_ in add_ for x in ast.walk(s_)):
+                        blocked = True
+            if blocked:
+                continue
             for (tgt, _look), k, d in zip(lv, ks, ds):
                 if k is not None and k[0] == "jump":
                     continue
                 add = [_clone(x) for x in (b.body if d else b.orelse)] if d is not None else [_clone(b)]
                 if isinstance(tgt, ast.Try):
                     tgt.orelse = add  # (an empty else clause is no else clause)
+                elif isinstance(tgt, tuple) and tgt[0] == "before-break":
+                    tgt[1][-1:-1] = add
                 else:
                     tgt.extend(add)
             del sts[i]
@@ -3518,6 +3596,58 @@ def normalise_jump_thread(tree):
         if isinstance(node, ast.Try):
             for h in node.handlers:
                 run(h.body)
+    if n[0]:
+        ast.fix_missing_locations(tree)
+    return n[0]
+
+
+def normalise_loop_fusion(tree):
+    """`while True: <while C: B.. (some if-branches end in `break`) else: break>; R` is the single loop `while C: B..` with R put in
+    place of each of those `break`s: the inner scan resumes exactly where the outer loop would have restarted it, and the
+    outer loop ends exactly when C fails.  (R without break / continue; the inner loop's else clause is the bare `break`.)"""
+    n = [0]
+
+    def leaves_(sts, acc):
+        if sts and isinstance(sts[-1], ast.Break):
+            acc.append(sts)
+        for s_ in sts:
+            if isinstance(s_, ast.If):
+                leaves_(s_.body, acc)
+                leaves_(s_.orelse, acc)
+
+    for node in ast.walk(tree):
+        for field in ("body", "orelse", "finalbody"):
+            sts = getattr(node, field, None)
+            if not isinstance(sts, list):
+                continue
+            for k, w in enumerate(sts):
+                if not (isinstance(w, ast.While) and isinstance(w.test, ast.Constant) and w.test.value is True and not w.orelse and w.body):
+                    continue
+                inner = w.body[0]
+                rest = w.body[1:]
+                if not (isinstance(inner, ast.While) and len(inner.orelse) >= 1 and isinstance(inner.orelse[-1], ast.Break)
+                        and all(isinstance(x, (ast.Assign, ast.Pass)) and all(isinstance(t_, ast.Name) for t_ in getattr(x, "targets", [])) and isinstance(getattr(x, "value", ast.Constant(value=0)), ast.Constant)
+                                for x in inner.orelse[:-1])):
+                    continue
+                if any(isinstance(x, (ast.Break, ast.Continue, ast.Return)) for s_ in rest for x in ast.walk(s_)) and any(isinstance(x, (ast.Break, ast.Continue)) for s_ in rest for x in ast.walk(s_)):
+                    continue
+                acc = []
+                leaves_(inner.body, acc)
+                total_breaks = sum(1 for s_ in inner.body for x in ast.walk(s_) if isinstance(x, ast.Break)
+                                   and not any(isinstance(z, (ast.For, ast.While)) and any(q is x for q in ast.walk(z)) for z in ast.walk(s_)))
+                if not acc or total_breaks != len(acc) or any(isinstance(x, (ast.Try, ast.With, ast.For, ast.While)) and any(isinstance(y, ast.Break) for y in ast.walk(x)) for s_ in inner.body for x in ast.walk(s_)):
+                    continue
+                # constants set on the way out (flags) are dead once the loops are one: they were only read by the decision that is now taken in place
+                flags = {t_.id for x in inner.orelse[:-1] for t_ in getattr(x, "targets", [])}
+                outside_reads = [x for x in ast.walk(tree) if isinstance(x, ast.Name) and x.id in flags and isinstance(x.ctx, ast.Load)]
+                if outside_reads:
+                    continue
+                for lf in acc:
+                    lf[-1:] = [_clone(x) for x in rest] or [ast.Pass()]
+                fused = ast.While(test=inner.test, body=inner.body, orelse=[])
+                ast.copy_location(fused, w)
+                sts[k] = fused
+                n[0] += 1
     if n[0]:
         ast.fix_missing_locations(tree)
     return n[0]
@@ -3936,6 +4066,7 @@ def normalise_program(trees):
             normalise_dict_build(tree, known)
             normalise_local_records(tree, known)
             normalise_jump_thread(tree)
+            normalise_loop_fusion(tree)
             ast.fix_missing_locations(tree)
     for path, tree in trees.items():
         if path in stats and normalise_renamed(tree):
